@@ -186,6 +186,23 @@ Fixpoint keys_nodup (ks : list (list byte)) : bool :=
   | k :: tl => negb (existsb (bytes_eqb k) tl) && keys_nodup tl
   end.
 
+Definition all2 (f : jexp -> jvalue -> bool) : list jexp -> list jvalue -> bool :=
+  fix go es vs :=
+    match es, vs with
+    | [], [] => true
+    | e :: es', v :: vs' => f e v && go es' vs'
+    | _, _ => false
+    end.
+
+(** every expected member is present (first member of that name) and meets its expectation *)
+Definition all_members (f : jexp -> jvalue -> bool) (vs : list (list byte * jvalue))
+  : list (list byte * jexp) -> bool :=
+  fix go ms :=
+    match ms with
+    | [] => true
+    | (k, e) :: ms' => match find_member k vs with Some v => f e v | None => false end && go ms'
+    end.
+
 Fixpoint matches (e : jexp) (v : jvalue) {struct e} : bool :=
   match e, v with
   | EStr s, JStr s' => bytes_eqb s s'
@@ -193,20 +210,9 @@ Fixpoint matches (e : jexp) (v : jvalue) {struct e} : bool :=
   | EDec m x, JNum l => num_is_dec l m x
   | EBool b, JBool b' => Bool.eqb b b'
   | EEmpty, JArr [JNull] => true
-  | EArr es, JArr vs =>
-      (fix all2 (es : list jexp) (vs : list jvalue) : bool :=
-         match es, vs with
-         | [], [] => true
-         | e :: es', v :: vs' => matches e v && all2 es' vs'
-         | _, _ => false
-         end) es vs
+  | EArr es, JArr vs => all2 matches es vs
   | EObj ms, JObj vs =>
-      Nat.eqb (length ms) (length vs) && keys_nodup (map fst ms) &&
-      (fix all (ms : list (list byte * jexp)) : bool :=
-         match ms with
-         | [] => true
-         | (k, e) :: ms' =>
-             match find_member k vs with Some v => matches e v | None => false end && all ms'
-         end) ms
+      (* same number of members, expected names pairwise distinct, each found: the member sets coincide *)
+      Nat.eqb (length ms) (length vs) && keys_nodup (map fst ms) && all_members matches vs ms
   | _, _ => false
   end.
